@@ -53,6 +53,50 @@ def unique_callers(ctx, r, key, target, want, why=None):
     return r.check(key, cs == set(want), ctx.site(target) if ctx.has_fn(target) else None, built=sorted(cs), expected=sorted(want), why=why or 'who-may-call')
 
 
+def field_writers(ctx, adt, field):
+    """Functions (owners, helpers folded into the vocabulary function that uses them) in which field `field` of `adt` is assigned,
+    borrowed mutably, or the receiver of a `&mut self` method -- everything that could change what it holds."""
+    import hir as H
+    out = set()
+    for p_, fn_ in ctx.fns.items():
+        if 'hir' not in fn_ or fn_.get('cfg_test') or fn_.get('mac'):
+            continue
+        for nd in H.walk(fn_['hir']):
+            tgt = None
+            if nd.get('k') in ('Assign', 'AssignOp'):
+                tgt = H.peel(nd['l'])
+            elif nd.get('k') == 'MethodCall' and (nd.get('recv_ty') or '').startswith('&mut'):
+                tgt = H.peel(nd['recv'])
+            elif nd.get('k') == 'AddrOf' and nd.get('mut'):
+                tgt = H.peel(nd['e'])
+            if tgt is not None and tgt.get('k') == 'Field' and tgt.get('name') == field and adt in (tgt['e'].get('ty') or ''):
+                out.add(ctx.owner(p_))
+    return out
+
+
+def drains_until_empty(ctx, r, key, fnp, params, recv_call, other_exits=()):
+    """Edge-triggered readiness is reported once: the handler of a queue must take messages until the queue says Empty. Every path
+    of `fnp` that leaves its loop without an error has seen `recv_call ~ Err(Empty)` (or one of `other_exits`, conditions under
+    which there is nothing to read from); a path that took a message goes round again."""
+    import paths as P
+    rows = P.table(ctx, fnp, params)
+    bad = []
+    took = 0
+    for x in rows:
+        cs = x.cond_strs()
+        got = any(c.startswith(recv_call) and c.endswith('~ Ok(_)') for c in cs)
+        empty = any(c.endswith('TryRecvError::Empty') for c in cs)
+        if got:
+            took += 1
+            if x.done != 'iterate' and not x.value_str().startswith('Err(') and not x.value_str().endswith('?'):
+                bad.append(x.row())
+        elif x.done in ('return', 'break', None) and not x.value_str().startswith('Err(') and not empty and not any(c in other_exits for c in cs):
+            bad.append(x.row())
+    return r.check(key, rows and took >= 1 and not bad, ctx.site(fnp), built=bad[:3] or [x.cond_strs() for x in rows][:4],
+                   expected='every path that stops reading has seen try_recv() ~ Err(Empty) (or an error); a path that took a message reads again',
+                   why='the receivers are registered edge-triggered: what is left in the queue when the handler returns is not announced again')
+
+
 _SUB_CACHE = {}
 
 
